@@ -82,6 +82,8 @@ func main() {
 	for i := 0; i < nProgs; i++ {
 		specs = append(specs, emitbatch.ProgSpec{Sub: fmt.Sprintf("p%d", i), Seed: rng.Int63(), Cfg: "core"})
 	}
+	// the fixed witness program of the known dependency defect runs on every invocation
+	specs = append(specs, emitbatch.ProgSpec{Sub: fmt.Sprintf("p%d", nProgs), Seed: 0, Cfg: "witness:specialdouble"})
 	var wg sync.WaitGroup
 	sem := make(chan struct{}, 4)
 	var mu sync.Mutex
